@@ -200,11 +200,10 @@ impl Execution {
 
         let switched = Some(self.threads.active_id()) != next;
 
-        self.threads.set_active(next);
-
-        // There is no active thread. Unless all threads have terminated, the
-        // test has deadlocked.
-        if !self.threads.is_active() {
+        // There is no thread to run. Unless all threads have terminated, the
+        // test has deadlocked. The thread that notices it stays the active
+        // one while it unwinds: its destructors may perform loom operations.
+        if next.is_none() {
             let terminal = self.threads.iter().all(|(_, th)| th.is_terminated());
 
             assert!(
@@ -216,8 +215,12 @@ impl Execution {
                     .collect::<Vec<_>>()
             );
 
+            self.threads.set_active(next);
+
             return true;
         }
+
+        self.threads.set_active(next);
 
         // TODO: refactor
         if let Some(operation) = self.threads.active().operation {
